@@ -62,6 +62,9 @@ CHECKS = {
  'C08': dict(cat='exploration', tech='systematic schedule exploration (choice variables with a preemption bound, depth-first via symx) of the real threaded controller code under baton-passing threading shims',
    text='Eight client scenarios (1..3 client threads issuing add/insert/spawn and status probes; 1..4 jobs; job bodies finishing or raising as a choice variable) run the real JobControl/Agent code under a deterministic scheduler whose decision at every lock/thread operation and every read or write of _queue/_active_agent/_background is a choice variable; every schedule with at most 2 (quick) / 3 (thorough) preemptions is executed and checked for exclusion, head-of-queue start order, exactly-once start, no escaping exception, no deadlock, a drained controller and background bookkeeping.',
    note='Pure scheduling: the solver engine only enumerates feasible choice vectors. Lock waits never time out; single deque/dict operations are atomic; more threads/jobs/preemptions are outside.', ref='4/C08'),
+ 'C09': dict(cat='exploration', tech='systematic schedule exploration (choice variables with a preemption bound, depth-first via symx) of the real JobControl/ScriptJob/Machine/Clock threads under baton-passing shims with discrete-event virtual time',
+   text='Five script shapes (straight-line, infinite repeat, timed, time-of-day, long delay) x four stop APIs (stop_job, stop_current, stop-all as the web server does it, stop_background), optionally with another job queued behind or a job started after the stop: the real JobControl, Agent, ScriptJob, Machine and Clock (clock thread included) run under the deterministic scheduler; the requester lets 0..2 ticks pass and every switch at lock/thread/event/sleep operations and at accesses of Machine._keep_running, Clock._keep_going, JobControl._active_agent is a choice, within 2 (quick) / 3 (thorough) preemptions. On every schedule the stopped job ends, at most one further command is sent, the next queued job completes (or nothing starts after stop-all), a job started afterwards sends all its commands with its delay honoured, and no exception escapes.',
+   note='Discrete-event time (sleep and network requests block, time moves when all threads are blocked); a fairness rule hands over from a thread that spins 40 steps; lock waits never time out. More preemptions and longer scripts are outside.', ref='4/C09'),
 }
 PENDING = {
 }
